@@ -75,6 +75,9 @@ func (s *c04store) RemoveBlobs(ctx context.Context, blobs []blob.Ref) error {
 	return s.rawStore.RemoveBlobs(ctx, blobs)
 }
 func (s *c04store) SubFetch(ctx context.Context, br blob.Ref, offset, length int64) (io.ReadCloser, error) {
+	if offset < 0 || length < 0 {
+		return nil, blob.ErrNegativeSubFetch
+	}
 	rc, _, err := s.rawStore.Fetch(ctx, br)
 	if err != nil {
 		return nil, err
@@ -256,16 +259,9 @@ func (e *c04env) observe(what string, ops []string, human []string, mustHave map
 			if len(st) != 1 || int(st[0].Size) != len(b.content) {
 				bad = fmt.Sprintf("stat of blob #%d answers %v", b.id, st)
 			}
-			if sf, ok := e.sto.(blob.SubFetcher); ok && len(b.content) > 4 {
-				off, ln := int64(len(b.content)/3), int64(len(b.content)/3)
-				if rc, err := sf.SubFetch(ctxb, b.ref, off, ln); err == nil {
-					got, _ := io.ReadAll(rc)
-					rc.Close()
-					if !bytes.Equal(got, b.content[off:off+ln]) {
-						bad = fmt.Sprintf("range fetch of blob #%d returns other bytes", b.id)
-					}
-				} else {
-					bad = fmt.Sprintf("range fetch of blob #%d fails: %v", b.id, err)
+			if sf, ok := e.sto.(blob.SubFetcher); ok {
+				if w := rangeFetchCheck(sf, b.ref, b.content); w != "" {
+					bad = fmt.Sprintf("blob #%d: %s", b.id, w)
 				}
 			}
 		}
